@@ -10,12 +10,30 @@ def optNatOf (j : Json) : Except String (Option Nat) :=
   | Json.null => .ok none
   | v => (v.getNat?).map some
 
+def valueName : Value → String
+  | .object => "object" | .headTrue => "headTrue" | .headFalse => "headFalse" | .emptyBody => "emptyBody" | .body => "body"
+  | .bulkTuple => "bulkTuple" | .pyNone => "pyNone" | .pyFalse => "pyFalse" | .pyZero => "pyZero" | .emptyDict => "emptyDict"
+  | .emptyList => "emptyList" | .emptyStr => "emptyStr"
+
+def allValues : List Value :=
+  [.object, .headTrue, .headFalse, .emptyBody, .body, .bulkTuple, .pyNone, .pyFalse, .pyZero, .emptyDict, .emptyList, .emptyStr]
+
+def valueOf (s : String) : Option Value := allValues.find? (fun v => valueName v == s)
+
 /-- outcomes travel as arrays: ["success"], ["connTimeout"], ["bulk",[429,null]], ["api",404], … ; tag = script index -/
 def outcomeOf (idx : Nat) (j : Json) : Except String Outcome := do
   let a ← j.getArr?
   let k ← (a[0]?.getD Json.null).getStr?
   match k with
-  | "success" => return .success idx
+  | "success" =>
+    -- ["success"] or ["success", "<kind of the returned object>"]
+    match a[1]? with
+    | none => return succeeds idx .object
+    | some vj =>
+      let vs ← vj.getStr?
+      match valueOf vs with
+      | some v => return succeeds idx v
+      | none => throw s!"unknown result kind {vs}"
   | "connTimeout" => return .connTimeout
   | "connError" => return .connError
   | "authn" => return .authn
@@ -53,7 +71,7 @@ def causeJson : Cause → List Json
   | .transportError => [Json.str "transportError"]
 
 def resJson : Res → Json
-  | .returned t => arr [Json.str "returned", toJson t]
+  | .returned t => arr [Json.str "returned", toJson (tagAttempt t), Json.str (valueName (tagValue t)), toJson (tagValue t).truthy]
   | .rallyError c => arr (Json.str "RallyError" :: causeJson c)
   | .systemSetupError c => arr (Json.str "SystemSetupError" :: causeJson c)
   | .propagated t => arr [Json.str "propagated", toJson t]
@@ -66,6 +84,7 @@ def evJson : Ev → Json
 
 def stepTag (count : Nat) (o : Outcome) : String :=
   match handle count o with
+  | .done (.returned t) => if (tagValue t).truthy then "success:done" else "success:falsy-result"
   | .sleepRetry => s!"{kindName o}:retry"
   | .done (.rallyError (.bulkUnretryable _)) => "bulk:unretryable"
   | .done (.rallyError (.apiError _)) => if count ≤ maxExecutionCount then "api:fatal" else "api:fatal-or-exhausted"
@@ -128,6 +147,36 @@ def handle (op : String) (a : Json) : Except String Json := do
       | .raisedConnError => arr [Json.str "connError"]
       | .raisedConnTimeout => arr [Json.str "connTimeout"]
     return ok (Json.mkObj [("exchanges", arr exJ), ("outcome", outJ)])
+  | "open" =>
+    let rs ← getArr a "rnd"
+    let rnds ← rs.mapM (fun j => do let s ← j.getStr?; parseRat s)
+    let rnd : Nat → Rat := fun k => rnds.getD k 0
+    let create ← getBool a "create"
+    let overwrite ← getBool a "overwrite"
+    let index ← getBool a "index"
+    let tj ← a.getObjValAs? String "template"
+    let template ← match tj with
+      | "none" => pure (none : Option (Option Bool))
+      | "empty" => pure (some none)
+      | "same" => pure (some (some true))
+      | "differs" => pure (some (some false))
+      | s => throw s!"unknown template state {s}"
+    let sj ← getArr a "scripts"
+    let scripts ← sj.mapM (fun x => do
+      let xs ← x.getArr?
+      xs.toList.zipIdx.mapM (fun (j, i) => outcomeOf i j))
+    let (runs, err) := openStore rnd create ⟨template, overwrite, index⟩ scripts
+    let opName : StoreOp → String
+      | .templateExists => "template_exists"
+      | .getTemplate => "get_template"
+      | .putTemplate => "put_template"
+      | .existsIndex m => if m then "exists:new" else "exists"
+      | .createIndex => "create_index"
+      | .refresh m => if m then "refresh:new" else "refresh"
+    let runsJ := runs.map (fun (o, r) => arr [Json.str (opName o), arr (r.trace.map evJson)])
+    let tags := (openPlan create ⟨template, overwrite, index⟩).map opName
+    return ok (Json.mkObj [("ops", arr runsJ), ("err", match err with | none => Json.null | some e => resJson e),
+      ("plan", arr ((openPlan create ⟨template, overwrite, index⟩).map (fun o => Json.str (opName o))))]) tags
   | "pause" =>
     let k ← getNat a "k"
     let r ← getRat a "r"
